@@ -10,6 +10,9 @@ Accepted justifications (enumerated from what the library does, one obligation p
   J4 member-of   the index is the loop variable over a set filled only with position counters of a range-for over X, or a
                  local defined only as -1 / an element of such a set, used under `index >= 0`
   J5 reviewed    explicit table below, one reason per site
+A site is a *violation* when a recognised idiom is there without its guard (sentinel not excluded, unsigned sentinel, `i - 1`
+without `> 0`, *begin() of a possibly empty set, a shrinking container, a counter read after its loop = size()); a site whose index
+has none of the enumerated provenances is *undecided* (exit 2), not a violation: nothing is known about it.
 Sites inside a branch whose condition is a local bool that is the constant false on every path are dead and skipped.
 """
 from .. import astu
@@ -254,10 +257,14 @@ def check(rep, prog, keys):
                                   'which this intraprocedural rule does not follow' % (text, idx['name'], fn['name']))
                 continue
             if idx['k'] != 'Ref' or idx.get('dk') != 'local':
-                rep.add('VECTOR.index', keyname, w, 'index %s is not a local with a recognised provenance' % astu.src(idx), False)
+                rep.cannot_decide('VECTOR.index', w, '%s: index %s is not a local with a recognised provenance' % (text, astu.src(idx)))
                 continue
             name = idx['name']
             ok, why = _justify(fn, L, pm, s, cont, idx, off, possets, shrink)
+            if ok is None:
+                # the provenance is none of the enumerated idioms: nothing is concluded (neither safe nor unsafe)
+                rep.cannot_decide('VECTOR.index', w, '%s: %s' % (text, why))
+                continue
             rep.add('VECTOR.index', keyname, w, '%s: %s' % (text, why), ok)
     return nsites
 
@@ -271,6 +278,32 @@ def _bounded_by(cont, bound, L):
     return ('size(%s) >= size(%s): %s' % (a, b, r)) if r else None
 
 
+def _past_the_end(fn, L, pm, asg, d, cont):
+    """`idx = c` taken *after* a range-for over the subscripted container in which c (starting at 0) is incremented once per
+    iteration: c equals the container's size there, so `container[idx]` is one past the end.  Returns the explanation or None."""
+    if asg is None:
+        return None
+    v = L.decl.get(d['id'])
+    if v is None or astu.num_value(v.get('init')) != 0:
+        return None
+    for loop in astu.walk(fn['body']):
+        if loop['k'] != 'ForRange':
+            continue
+        top = loop['body']['s'] if loop['body']['k'] == 'Compound' else [loop['body']]
+        incs = [s_ for s_ in top if s_['k'] == 'Expr' and s_['e']['k'] == 'Un' and s_['e']['op'] == '++' and
+                astu.strip_casts(s_['e']['e']).get('id') == d['id']]
+        if len(incs) != 1 or top[-1] is not incs[0]:
+            continue
+        if any(y['k'] in ('Continue', 'Break') for y in astu.walk(loop['body'])):
+            continue
+        allw = [w_ for r_, how, w_ in statics.written_refs(fn['body']) if r_.get('id') == d['id']]
+        inside = any(x is asg for x in astu.walk(loop))
+        if len(allw) == 1 and not inside and asg.get('l', 0) > loop.get('le', loop.get('l', 0)) and _same_container(cont, loop['range'], L):
+            return ('index is assigned from %s after the loop over %s that increments it once per element: it equals %s.size(), '
+                    'one past the last element' % (d['name'], astu.src(loop['range']), astu.src(loop['range'])))
+    return None
+
+
 def _justify(fn, L, pm, site, cont, idx, off, possets, shrink):
     name = idx['name']
     v = L.decl.get(idx['id'])
@@ -280,20 +313,20 @@ def _justify(fn, L, pm, site, cont, idx, off, possets, shrink):
         if off != 0:
             return False, 'counter %s used with offset %d' % (name, off)
         rel = _bounded_by(cont, bound, L)
-        return (rel is not None), 'J1 counter of `for (%s = 0; %s < %s.size(); ++)`; %s' % (name, name, astu.src(bound), rel or 'the loop bound is the size of another container')
+        return (True if rel is not None else None), 'J1 counter of `for (%s = 0; %s < %s.size(); ++)`; %s' % (name, name, astu.src(bound), rel or 'the loop bound is the size of another container')
     # J4: range-for variable over a set of positions
     if v is not None and v.get('forrange') is not None:
         rng = astu.strip_casts(v['forrange']['range'])
         if rng['k'] == 'Ref' and rng.get('id') in possets and off == 0:
             rel = _bounded_by(cont, possets[rng['id']], L)
-            return rel is not None, 'J4 element of the set %s of positions in %s; %s' % (rng['name'], astu.src(possets[rng['id']]), rel)
-        return False, 'range-for variable over %s, which is not a set of positions of the container' % astu.src(rng)
+            return (True if rel is not None else None), 'J4 element of the set %s of positions in %s; %s' % (rng['name'], astu.src(possets[rng['id']]), rel)
+        return None, 'range-for variable over %s, which is not a set of positions of the container' % astu.src(rng)
     if v is None:
-        return False, 'index %s has no visible declaration' % name
+        return None, 'index %s has no visible declaration' % name
     defs = ([v['init']] if 'init' in v else []) + [a['b'] for a in L.assigns.get(idx['id'], []) if a['op'] == '=']
     if any(a['op'] != '=' for a in L.assigns.get(idx['id'], [])) or \
             any(how != 'assigned' for r, how, n in statics.written_refs(fn['body']) if r.get('id') == idx['id']):
-        return False, 'index %s is modified other than by plain assignment' % name
+        return None, 'index %s is modified other than by plain assignment' % name
     kinds = set()
     bound_c = None
     for d in defs:
@@ -310,10 +343,13 @@ def _justify(fn, L, pm, site, cont, idx, off, possets, shrink):
                 if cb is not None and asg and _under(pm, asg[0], d['name'], '>=', 0):
                     kinds.add('last')
                     if bound_c is not None and not _same_container(bound_c, cb, L):
-                        return False, 'index %s mixes positions of different containers' % name
+                        return None, 'index %s mixes positions of different containers' % name
                     bound_c = cb
                     continue
-                return False, 'index %s is assigned from %s outside a `for (%s = 0; %s < X.size(); ++)` loop' % (name, d['name'], d['name'], d['name'])
+                past = _past_the_end(fn, L, pm, asg[0] if asg else None, d, cont)
+                if past:
+                    return False, past
+                return None, 'index %s is assigned from %s outside a `for (%s = 0; %s < X.size(); ++)` loop' % (name, d['name'], d['name'], d['name'])
             kinds.add('found')
             bound_c = b
         elif d['k'] == 'Bin' and d['op'] == '-' and astu.num_value(astu.strip_casts(d['b'])) == 1 and \
@@ -341,16 +377,16 @@ def _justify(fn, L, pm, site, cont, idx, off, possets, shrink):
                     bound_c = cb
                     continue
             if cb is None:
-                return False, 'index %s is defined by %s(), which does not return -1 or `size() - 1` of a container passed to it' % (name, d['callee']['qn'].split('::')[-1])
+                return None, 'index %s is defined by %s(), which does not return -1 or `size() - 1` of a container passed to it' % (name, d['callee']['qn'].split('::')[-1])
             kinds.update(('last', 'sentinel'))
             bound_c = cb
         else:
-            return False, 'index %s is defined as %s' % (name, astu.src(d))
+            return None, 'index %s is defined as %s' % (name, astu.src(d))
     if 'sentinel' not in kinds and len(defs) != 1:
-        return False, 'index %s has several definitions and no sentinel' % name
+        return None, 'index %s has several definitions and no sentinel' % name
     rel = _bounded_by(cont, bound_c, L) if bound_c is not None else None
     if rel is None:
-        return False, 'index %s ranges over %s, which does not bound this container' % (name, astu.src(bound_c) if bound_c else '?')
+        return None, 'index %s ranges over %s, which does not bound this container' % (name, astu.src(bound_c) if bound_c else '?')
     if 'sentinel' in kinds:
         ty = v.get('ty', '')
         unsigned = any(w in ty for w in ('unsigned', 'size_t', 'size_type', 'uint'))
